@@ -175,6 +175,24 @@ Definition skip_ok (skip : list str) (gs gs' : glyphset) : bool :=
      | _, _, _ => false
      end) gs'.
 
+(* the whole SkipExportGlyphsFilter: skipped glyphs removed, every other glyph replaced by its filtered version *)
+Fixpoint skip_set (gs0 : glyphset) (skip : list str) (l : glyphset) : option glyphset :=
+  match l with
+  | [] => Some []
+  | (n, g) :: r =>
+      if mem n skip then skip_set gs0 skip r
+      else match skip_glyph gs0 skip g, skip_set gs0 skip r with
+           | Some g', Some r' => Some ((n, g') :: r')
+           | _, _ => None
+           end
+  end.
+Definition skip_filter (gs : glyphset) (skip : list str) : option glyphset := skip_set gs skip gs.
+
+Definition glyphset_eqb (a b : glyphset) : bool :=
+  list_eqb (fun x y => str_eqb (fst x) (fst y) && glyph_eqb (snd x) (snd y)) a b.
+Definition model_filter_eqb (skip : list str) (gs gs' : glyphset) : bool :=
+  match skip_filter gs skip with Some m => glyphset_eqb m gs' | None => false end.
+
 Definition model_skip_eqb (skip : list str) (gs gs' : glyphset) : bool :=
   forallb (fun ng => match assoc (fst ng) gs with
                      | Some g => match skip_glyph gs skip g with
